@@ -861,6 +861,9 @@ def run(ck: Check):
     )
     ck.extra["translator_recognised_source"] = tr_ok
     ck.extra["classes_in_generated_table"] = len(table)
+    import time
+
+    _T_RUN[0] = time.time()
     drv = None
     try:
         drv = ck.driver("drv_c11")
@@ -1015,7 +1018,7 @@ def run(ck: Check):
     for _ in range(n_hist):
         L = rng.randint(2, max_len)
         handle(gen_history(g0, rng, L), f"random/len<={((L - 1) // 10 + 1) * 10}")
-        if ck_time(ck) > (700 if ck.thorough() else 75):
+        if ck_time(ck) > (700 if ck.thorough() else 60):
             ck.notes.append("stopped random histories at the time budget")
             break
 
@@ -1039,7 +1042,7 @@ def run(ck: Check):
         depth2 = depth2[:100]
     for a, b in depth2:
         handle([dict(a), dict(b)], "exhaustive-small/len2", small=True)
-        if not ck.thorough() and ck_time(ck) > 85:
+        if not ck.thorough() and ck_time(ck) > 70:
             break
     if ck.thorough():
         upd = [o for o in alphabet if o["op"] != "eval"]
@@ -1064,10 +1067,14 @@ def run(ck: Check):
                      found_input=False)
 
 
+_T_RUN = [None]
+
+
 def ck_time(ck):
+    """seconds spent on cases (waiting for the shared lake lock / the Lean build is not counted)"""
     import time
 
-    return time.time() - ck.t0
+    return time.time() - (_T_RUN[0] or ck.t0)
 
 
 def _short(o):
